@@ -75,7 +75,11 @@ ASSUMPTIONS = [
     'the harness plays ResourceService._run: one callback at a time per '
     'host, retry_request = a later "modified" event if the request still '
     'exists, request replay after a restart in directory order (arbitrary: '
-    'both orders are generated)',
+    'both orders are generated); the service directory is real (temp dir, '
+    'initialize() called): resources/<rid> link, request.yml, and reply.yml '
+    'written/removed where ResourceService._on_created / _update_request do; '
+    'client-side updates of an existing request (put on a known id) are not '
+    'generated',
     'a session expiry kills the service process (zkutils.exit_on_lost); the '
     'in-flight callback does no further ZooKeeper call',
     'external deletion (admin blackout -> presence.kill_node) only happens '
